@@ -48,11 +48,12 @@ def build(c, seed):
         if c.get('scale'):
             Y[0] = Y[0] * 2.0 ** c['scale']
         return Y
-    if pat == 'graded':
+    if pat in ('graded', 'steep'):
+        # 'steep': singular values down to 1e-9 ... 1e-13 of the largest one - squared, they vanish against the total energy in double precision
         Y = space.tt(c['shape'], c['ranks'], 'gen', seed, tag=c.get('tag', 0))
         for k, G in enumerate(Y):
             r1, n, r2 = G.shape
-            G *= (2.0 ** (-6.0 * np.arange(r2)))[None, None, :]
+            G *= (2.0 ** ((-6.0 if pat == 'graded' else -15.0) * np.arange(r2)))[None, None, :]
     else:
         Y = space.tt(c['shape'], c['ranks'], pat, seed, tag=c.get('tag', 0))
     if c.get('scale'):
@@ -293,6 +294,9 @@ def _tensors(tier, seed):
         for pat in ('gen', 'graded'):
             for sc in (0, -12, 12):
                 out.append(dict(shape=sh, ranks=rk, pat=pat, scale=sc, seed=seed))
+    for sh, rk in (([3, 3], [1, 3, 1]), ([4, 5], [1, 4, 1]), ([3, 2, 3], [1, 3, 3, 1]), ([4, 4, 4], [1, 3, 3, 1]), ([2, 3, 2, 2], [1, 2, 3, 2, 1])):
+        for sc in (0, 30):
+            out.append(dict(shape=sh, ranks=rk, pat='steep', scale=sc, seed=seed))
     # extreme scales (absolute tolerances hidden in the code show only here) incl. exactly square unfoldings r_k = n_k r_{k+1}
     for sc in (-40, -70, 60, -300, 300):
         for sh, rk in (([3, 3], [1, 3, 1]), ([2, 2, 2], [1, 2, 2, 1]), ([5, 6, 4], [1, 4, 4, 1]), ([3, 2, 3], [1, 3, 3, 1]), ([2, 3, 2, 2], [1, 2, 4, 2, 1])):
